@@ -1,11 +1,11 @@
-\* repaired model, a failing batch write (hole in the log): the list stays a consistent subsequence
+\* repaired model, a failing batch write (hole in the log)
 CONSTANTS NTx = 3 Kind <- KindS Sender <- SenderS Nonce <- NonceS NAccs = 1 Accs <- MCAccs StartEmpty = FALSE
   Max = 3 NPushers = 1 NConsumers = 0 Batch = 2
-  MaxPush = 4 MaxBlocks = 1 MaxFail = 1 MaxCrash = 0 MaxClose = 1 MaxPops = 1 MaxExecErr = 0
+  MaxPush = 4 MaxBlocks = 1 MaxFail = 1 MaxCrash = 0 MaxClose = 1 MaxPops = 1 MaxExecErr = 0 MaxFatal = 0
   DedupFix = TRUE OverflowFix = TRUE Mutant = "none"
 INIT Init
 NEXT Next
 VIEW view
-INVARIANTS TypeOK ExactlyOnceFIFO DbConsistent DbIsLog DurablePrefix DurableSubseq NothingDropped CloseFlushesAll
+INVARIANTS TypeOK ExactlyOnceFIFO DbConsistent DbIsLog DurablePrefix NothingDropped CloseFlushesAll SameOrder NoLostWakeup ExecBatchBound
 PROPERTIES RejectHasNoEffect CapacityOnPush StrictCapacityOnPush ReloadIsTheLog
 CHECK_DEADLOCK FALSE
